@@ -97,18 +97,79 @@ def observe_fit(cfg, X, y, script_seed, fast_rng=None):
         return seams.interpose.REAL
 
     so.fmin_l_bfgs_b = wrap
+    clf = None
     try:
         with warnings.catch_warnings():
             warnings.simplefilter("ignore")
             with seams.fresh_default_accountant():
                 with seams.interpose(force=force) as calls:
                     ic = np.bool_(cfg["intercept"]) if cfg.get("ic_kind") == "np.bool_" else bool(cfg["intercept"])
-                    clf = dp.models.LogisticRegression(epsilon=cfg["eps"], data_norm=cfg["norm"], C=cfg["C"],
-                                                       fit_intercept=ic, max_iter=cfg.get("max_iter", 3))
-                    clf.fit(as_passed(cfg, X), y)
+                    tp = cfg.get("types", {})
+                    eps_a, norm_a = typed(cfg["eps"], tp.get("eps")), typed(cfg["norm"], tp.get("norm"))
+                    tol_a, mi_a = typed(1e-4, tp.get("tol")), typed(cfg.get("max_iter", 3), tp.get("max_iter"))
+                    if cfg.get("entry") == "path":
+                        # the path entry point of the anchored module: several C per call, no clipping of its own
+                        from diffprivlib.models.logistic_regression import _logistic_regression_path as path
+                        Cs = cfg["Cs"]
+                        if isinstance(Cs, list):
+                            Cs = [typed(v, tp.get("C")) for v in Cs]
+                            if cfg.get("Cs_kind") == "array":
+                                Cs = np.array(Cs)
+                            elif cfg.get("Cs_kind") == "tuple":
+                                Cs = tuple(Cs)
+                        else:
+                            Cs = typed(Cs, cfg.get("Cs_kind", "int"))
+                        path(clip_ref(X, cfg["norm"]), y, epsilon=eps_a, data_norm=norm_a, Cs=Cs, fit_intercept=ic,
+                             max_iter=mi_a, tol=tol_a, check_input=bool(cfg.get("check_input", False)))
+                    else:
+                        clf = dp.models.LogisticRegression(epsilon=eps_a, data_norm=norm_a, C=typed(cfg["C"], tp.get("C")),
+                                                           fit_intercept=ic, max_iter=mi_a, tol=tol_a)
+                        clf.fit(as_passed(cfg, X), y)
     finally:
         so.fmin_l_bfgs_b = prev
     return [c for c in calls if c.cls == "Vector"], rec, scripts, clf
+
+
+def typed(v, kind):
+    """the same number as python float / python int / numpy integer / numpy float32 / numpy float64"""
+    if kind in (None, "float"):
+        return float(v) if not isinstance(v, int) else v
+    if kind == "int":
+        return int(v)
+    if kind == "np.int64":
+        return np.int64(v)
+    if kind == "np.int32":
+        return np.int32(v)
+    if kind == "np.float32":
+        return np.float32(v)
+    if kind == "np.float64":
+        return np.float64(v)
+    raise KeyError(kind)
+
+
+def clip_ref(X, norm):
+    """rows scaled into the ball of radius `norm` (the path function expects clipped data)"""
+    nr = np.linalg.norm(X, axis=1)
+    f = np.maximum(nr / norm, 1.0) * (1 + 4 * EPS)
+    return X / f[:, None]
+
+
+def path_Cs(cfg):
+    Cs = cfg["Cs"]
+    return [float(v) for v in (np.logspace(-4, 4, int(Cs)) if not isinstance(Cs, list) else Cs)]
+
+
+def problems(cfg):
+    """(nominal per-problem epsilon, nominal C) of every solve, in call order"""
+    if cfg.get("entry") == "path":
+        return [(float(cfg["eps"]), C) for C in path_Cs(cfg)]
+    k = 1 if cfg["classes"] == 2 else cfg["classes"]
+    return [(cfg["eps"] / k, float(cfg["C"]))] * k
+
+
+def ptol(cfg):
+    """a parameter given in single precision is specified to single precision only"""
+    return 4e-7 if "np.float32" in cfg.get("types", {}).values() else 1e-12
 
 
 def make_data(cfg, dseed):
@@ -182,6 +243,49 @@ def gen_cfg(r):
                 cfg["eps"] = k * near_branch(r, star)
                 cfg["stratum"] = "branch-point"
                 break
+    m = r.u01()
+    if m < 0.15 and "stratum" not in cfg:
+        # the path entry point with several C (list / tuple / array, or an integer grid size = logspace(-4, 4, Cs))
+        cfg["entry"] = "path"
+        cfg["classes"] = 2
+        if r.chance(0.3):
+            cfg["Cs"] = r.randint(2, 4)
+            cfg["Cs_kind"] = r.choice(["int", "np.int64"])
+        else:
+            cfg["Cs"] = [r.choice([0.1, 100.0, 1.0, r.loguniform(1e-2, 1e2)]) for _ in range(r.randint(2, 4))]
+            cfg["Cs_kind"] = r.choice(["list", "tuple", "array"])
+        cfg["check_input"] = r.chance(0.5)
+        cfg["max_iter"] = r.choice([1, 3])
+    if r.chance(0.4):
+        # parameter TYPES as well as values: python int / numpy integer where the value is integral, numpy float32 / float64
+        if "stratum" not in cfg and cfg.get("entry") != "path" and r.chance(0.6):
+            cfg["C"] = float(r.choice([1, 1, 2, 3, 10]))
+        if "stratum" not in cfg and r.chance(0.4):
+            cfg["eps"] = float(r.choice([1, 2, 5]))
+        if "stratum" not in cfg and r.chance(0.4):
+            cfg["norm"] = float(r.choice([1, 2, 3]))
+        tp = {}
+        for name in ("C", "eps", "norm"):
+            if name == "C" and cfg.get("entry") == "path":
+                vals = cfg["Cs"] if isinstance(cfg["Cs"], list) else []
+            else:
+                vals = [cfg[name]]
+            kinds = ["float", "np.float64"]
+            if vals and all(float(v).is_integer() for v in vals):
+                kinds += ["int", "int", "np.int64", "np.int32"]
+            if vals and "stratum" not in cfg and all(float(np.float32(v)) == v for v in vals):
+                kinds += ["np.float32"]
+            elif vals and "stratum" not in cfg and r.chance(0.3):
+                # make the value representable in single precision, then hand it over as numpy.float32
+                if name == "C" and cfg.get("entry") == "path":
+                    cfg["Cs"] = [float(np.float32(v)) for v in vals]
+                else:
+                    cfg[name] = float(np.float32(cfg[name]))
+                kinds = ["np.float32"]
+            tp[name] = r.choice(kinds)
+        tp["tol"] = r.choice(["float", "np.float32", "np.float64"])
+        tp["max_iter"] = r.choice(["int", "np.int64", "np.int32"])
+        cfg["types"] = tp
     return cfg
 
 
@@ -247,21 +351,25 @@ def direct(ctx, cfg, dseed, X, y, calls, opts, scripts):
     def viol(sig, what):
         ctx.violation("C17:" + sig, f"{what}; configuration {cfg}, data seed {dseed}", {"cfg": cfg, "dseed": dseed, "check": sig})
         return False
-    k = 1 if cfg["classes"] == 2 else cfg["classes"]
+    probs = problems(cfg)
+    k = len(probs)
     n, d = cfg["n"], cfg["d"]
+    pt = ptol(cfg)
     dim = d + (1 if cfg["intercept"] else 0)
     if len(calls) != k or len(opts) != k:
-        return viol("problem-count", f"{len(calls)} Vector calls / {len(opts)} optimiser calls for {k} one-vs-rest problem(s)")
+        return viol("problem-count", f"{len(calls)} Vector calls / {len(opts)} optimiser calls for {k} solve(s)")
     s_ref = math.sqrt(cfg["norm"] ** 2 + 1) if cfg["intercept"] else cfg["norm"]
     obs = []
     for i, (c, o, sc) in enumerate(zip(calls, opts, scripts)):
         p = c.params
+        eps_nom, C_nom = probs[i]
         Xo, tgt, sw, l2 = o["args"]
         if o["func"] is not c.result:
             return viol("objective-identity", "the objective handed to the optimiser is not the noisy function returned by Vector.randomise")
         # per-problem epsilon
-        if not close(p["epsilon"], cfg["eps"] / k, 1e-12):
-            return viol("eps-split", f"problem {i}: Vector received epsilon={p['epsilon']!r}, expected eps/k = {cfg['eps'] / k!r} (k={k})")
+        if not close(p["epsilon"], eps_nom, pt):
+            return viol("eps-split", f"problem {i}: Vector received epsilon={p['epsilon']!r}, expected {eps_nom!r} (eps / number of "
+                                     f"one-vs-rest problems)")
         # rows the optimiser sees
         mx = float(np.linalg.norm(np.asarray(Xo, dtype=np.float64), axis=1).max())     # measured in double precision
         if not mx <= cfg["norm"] * (1 + 1e-12):
@@ -269,16 +377,18 @@ def direct(ctx, cfg, dseed, X, y, calls, opts, scripts):
         if Xo.shape != (n, d) or not np.all(sw == 1.0):
             return viol("optimiser-args", f"problem {i}: optimiser got X of shape {Xo.shape}, weights not all 1")
         # data sensitivity (enlarged for the intercept), curvature bound, dimension, n
-        if not close(p["data_sensitivity"], s_ref, 1e-12):
+        if not close(p["data_sensitivity"], s_ref, pt):
             return viol("data-sensitivity", f"problem {i}: data_sensitivity={float(p['data_sensitivity'])!r}, expected {s_ref!r}")
         if not float(p["function_sensitivity"]) == 0.25:
             return viol("function-sensitivity", f"problem {i}: function_sensitivity={p['function_sensitivity']!r}, expected 0.25")
         if int(p["dimension"]) != dim or int(c.obj.n) != n:
             return viol("dimension-n", f"problem {i}: dimension={p['dimension']}, n={c.obj.n}; expected {dim}, {n}")
-        # same regularisation strength in the mechanism (alpha/n) and in the objective (l2_reg_strength), = 1/(C n)
-        if not (close(float(p["alpha"]) / n, l2, 1e-12) and close(l2, 1.0 / (cfg["C"] * n), 1e-12)):
-            return viol("reg-strength", f"problem {i}: mechanism alpha/n = {float(p['alpha']) / n!r}, objective l2_reg_strength = "
-                                        f"{float(l2)!r}, 1/(C n) = {1.0 / (cfg['C'] * n)!r}")
+        # same regularisation strength in the mechanism (alpha/n) and in the objective (l2_reg_strength), = 1/(C n) for the
+        # C that was GIVEN (whatever its numeric type), and alpha = 1/C
+        if not (close(float(p["alpha"]) / n, l2, pt) and close(l2, 1.0 / (C_nom * n), pt) and close(float(p["alpha"]), 1.0 / C_nom, pt)):
+            return viol("reg-strength", f"problem {i}: C = {C_nom!r} was given: mechanism alpha = {float(p['alpha'])!r} (1/C = {1.0 / C_nom!r}), "
+                                        f"alpha/n = {float(p['alpha']) / n!r}, objective l2_reg_strength = {float(l2)!r}, 1/(C n) = "
+                                        f"{1.0 / (C_nom * n)!r}")
         ex = extract(c, o, dim, n)
         obs.append((ex, o))
         if ex["repeat"]:
@@ -288,32 +398,41 @@ def direct(ctx, cfg, dseed, X, y, calls, opts, scripts):
         # scale actually used = |b| / sum of the unit gammas
         gsum = sum(sc["gammas"][:4])
         scale_impl = float(np.linalg.norm(ex["b"])) / gsum
-        epsp_impl = 2 * s_ref / scale_impl
-        eps_k = cfg["eps"] / k
+        ds_obs, al_obs = float(p["data_sensitivity"]), float(p["alpha"])
+        epsp_impl = 2 * ds_obs / scale_impl
+        eps_k = float(p["epsilon"])
         lam = float(l2)
+        s_use = ds_obs
         # the branch quantity of the rule, eps - 2 log(1 + c s/alpha), evaluated on the arguments that reached the mechanism
         # (each already checked above) with the operations the rule names — decisive down to rounding of eps itself
         e0 = float(p["epsilon"] - 2 * np.log(1 + 0.25 * p["data_sensitivity"] / p["alpha"]))
         band = 4 * EPS * eps_k
         dtol = 1e-11 * ex["mag"] + 1e-9 * abs(ex["delta"])
+        rt, at_e = 1e-9, 0.0
+        if pt > 1e-12:
+            # a parameter arrived as numpy.float32: numpy then evaluates the calibration in single precision
+            e0 = eps_k - 2 * math.log(1 + 0.25 * ds_obs / al_obs)
+            band = pt * (1 + eps_k)
+            rt, at_e = pt, pt * (1 + eps_k)
+            dtol += pt * (abs(ex["delta"]) + al_obs / n + 0.25 * ds_obs / math.expm1(eps_k / 4) / n)
         if not (epsp_impl > 0 and ex["delta"] >= -dtol):
             return viol("cms-sign", f"problem {i}: eps'={epsp_impl!r}, Delta={ex['delta']!r} (need eps' > 0, Delta >= 0)")
-        total = epsp_impl + 2 * math.log(1 + 0.25 * s_ref / (n * (lam + max(ex["delta"], 0.0))))
+        total = epsp_impl + 2 * math.log(1 + 0.25 * s_use / (n * (lam + max(ex["delta"], 0.0))))
         # error budget: Delta enters through cs/(n(Lambda+Delta)); its extraction error dtol is propagated
-        slack = 1e-9 * eps_k + 4 * dtol * 0.25 * s_ref / (n * (lam + max(ex["delta"], 0.0)) ** 2) / (1 + 0.25 * s_ref / (n * (lam + max(ex["delta"], 0.0))))
+        slack = (4 * pt if pt > 1e-12 else 0.0) + 1e-9 * eps_k + 4 * dtol * 0.25 * s_use / (n * (lam + max(ex["delta"], 0.0)) ** 2) / (1 + 0.25 * s_use / (n * (lam + max(ex["delta"], 0.0))))
         if not abs(total - eps_k) <= slack:
             return viol("cms-identity", f"problem {i}: eps' + 2 log(1 + s/4/(n(Lambda+Delta))) = {total!r} but eps/k = {eps_k!r} "
-                                        f"(eps'={epsp_impl!r} from |b|/sum(gammas), Delta={ex['delta']!r}, Lambda={lam!r}, s={s_ref!r})")
+                                        f"(eps'={epsp_impl!r} from |b|/sum(gammas), Delta={ex['delta']!r}, Lambda={lam!r}, s={s_use!r})")
         if abs(e0) < band:
             ctx.boundary_skipped += 1          # eps' within 4 ulp of eps of the branch point: either branch is rounding
             ex["boundary"] = True
         elif e0 > 0:
-            if not (abs(ex["delta"]) <= dtol and close(epsp_impl, e0, 1e-9)):
+            if not (abs(ex["delta"]) <= dtol and close(epsp_impl, e0, rt, at_e)):
                 return viol("cms-rule", f"problem {i}: eps - 2 log(1+cs/alpha) = {e0!r} > 0, so the rule gives Delta = 0 and eps' = {e0!r}; "
                                         f"the implementation used Delta={ex['delta']!r}, eps'={epsp_impl!r}")
         else:
-            d_ref = (0.25 * s_ref / math.expm1(eps_k / 4) - float(p["alpha"])) / n
-            if not (close(epsp_impl, eps_k / 2, 1e-9) and close(ex["delta"], d_ref, 1e-8, dtol)):
+            d_ref = (0.25 * s_use / math.expm1(eps_k / 4) - al_obs) / n
+            if not (close(epsp_impl, eps_k / 2, rt, at_e) and close(ex["delta"], d_ref, 1e-8, dtol)):
                 return viol("cms-rule", f"problem {i}: eps - 2 log(1+cs/alpha) = {e0!r} <= 0, so the rule gives eps' = eps/2 = {eps_k / 2!r}, "
                                         f"Delta = {d_ref!r}; the implementation used eps'={epsp_impl!r}, Delta={ex['delta']!r}")
         if abs(e0) < 1e-5:
@@ -338,8 +457,12 @@ def F(x):
 def model_lines(cfg, X, calls, opts, scripts, obs):
     n, d = cfg["n"], cfg["d"]
     dim = d + (1 if cfg["intercept"] else 0)
-    L = [f"fit {F(cfg['eps'])} {F(cfg['C'])} {F(cfg['norm'])} {cfg['classes']} {d} {n} {1 if cfg['intercept'] else 0}"]
-    for (ex, o), c, sc in zip(obs, calls, scripts):
+    L = []
+    for (ex, o), c, sc, (eps_nom, C_nom) in zip(obs, calls, scripts, problems(cfg)):
+        if cfg.get("entry") == "path":      # the path function is handed the per-problem epsilon itself
+            L.append(f"fit {F(cfg['eps'])} {F(C_nom)} {F(cfg['norm'])} 2 {d} {n} {1 if cfg['intercept'] else 0}")
+        else:
+            L.append(f"fit {F(cfg['eps'])} {F(cfg['C'])} {F(cfg['norm'])} {cfg['classes']} {d} {n} {1 if cfg['intercept'] else 0}")
         glog = [e for e in c.obj._rng.log if e[0] == "gammavariate"]
         scale = float(glog[0][2]) if glog else float("nan")
         L.append(f"vec {F(scale)} {dim} " + " ".join(F(v) for v in sc["normals"][:4 * dim] + sc["gammas"][:4]))
@@ -360,26 +483,34 @@ def compare(ctx, cfg, dseed, X, calls, opts, scripts, obs, outs, rows):
     def dis(what, model, impl):
         ctx.disagree("logreg.callsite", {"cfg": cfg, "dseed": dseed}, model, impl, what)
         return False
-    w = outs[0].split()
-    if w[0] != "ok":
-        return dis("fit line", outs[0], None)
-    m_epsk, m_dim, m_alpha, m_c, m_s, m_n, m_l2 = b2f(int(w[1])), int(w[2]), b2f(int(w[3])), b2f(int(w[4])), b2f(int(w[5])), int(w[6]), b2f(int(w[7]))
-    m_epsp, m_delta, m_scale = b2f(int(w[8])), b2f(int(w[9])), b2f(int(w[10]))
-    pos = 1
+    pos = 0
+    f32 = ptol(cfg) > 1e-12
     for i, ((ex, o), c, sc) in enumerate(zip(obs, calls, scripts)):
+        w = outs[pos].split()
+        if w[0] != "ok":
+            return dis("fit line", outs[pos], None)
+        m_epsk, m_dim, m_alpha, m_c, m_s, m_n, m_l2 = b2f(int(w[1])), int(w[2]), b2f(int(w[3])), b2f(int(w[4])), b2f(int(w[5])), int(w[6]), b2f(int(w[7]))
+        m_epsp, m_delta, m_scale = b2f(int(w[8])), b2f(int(w[9])), b2f(int(w[10]))
+        pos += 1
         p = c.params
         impl_args = [float(p["epsilon"]), int(p["dimension"]), float(p["alpha"]), float(p["function_sensitivity"]),
                      float(p["data_sensitivity"]), int(c.obj.n), float(o["args"][3])]
         model_args = [m_epsk, m_dim, m_alpha, m_c, m_s, m_n, m_l2]
         for a, b_ in zip(model_args, impl_args):
-            if not close(a, b_, 1e-13):
+            if not close(a, b_, ptol(cfg) if f32 else 1e-13):
                 return dis(f"arguments reaching Vector / the optimiser (problem {i}): eps, dim, alpha, c, s, n, l2", model_args, impl_args)
         glog = [e for e in c.obj._rng.log if e[0] == "gammavariate"]
         if len(glog) != 4 or c.obj._rng.n_normal != 4 * dim:
             return dis("random draws consumed by Vector.randomise", {"normals": 4 * dim, "gammas": 4},
                        {"normals": c.obj._rng.n_normal, "gammas": len(glog)})
-        if ex.get("boundary"):
-            ctx.boundary_skipped += 1          # model (Lean log) and code (numpy log) may take different branches here
+        if ex.get("boundary") or f32:
+            # model (Lean log) and code (numpy log) may take different branches at the branch point; with a parameter in
+            # single precision the code's alpha / s carry single-precision rounding the double-precision model has not
+            # (the direct checks above use the arguments as they arrived)
+            if f32:
+                ctx.count("k_calibration_skipped_float32")
+            else:
+                ctx.boundary_skipped += 1
             pos += 2
             continue
         rel_s = 1e-9 + 16 * EPS * abs(m_epsk) / max(abs(m_epsp), 1e-300)     # eps' is a difference: cancellation near 0
